@@ -9,6 +9,14 @@ ALL = ["C%02d" % i for i in range(1, 21)]
 
 # id -> dict(level, technique, text, note, design_ref, engine)
 CHECKS = {
+    "C15": dict(
+        level="model_checking",
+        engine="E3-hist",
+        technique="explicit-state search over operation histories of the real Environment (complete history tree + BFS with deduplication on a plain-map reference model and differential merge checks)",
+        text="An alphabet of 33 operations over two template names (add_template borrowed / owned with 7 sources: plain, using a global+filter+test, not compiling, failing at run time, including b, extending b, rendering b from a function on the same thread; remove_template, clear_templates, set_loader with two loaders serving different sources, add/remove filter, test and global, clone and continue on the clone, render, get of a missing name) is explored as the complete unpruned history tree to depth 3 (quick, 3.6e4 histories) / 4 (thorough, 1.2e6) and by breadth-first search over reference-model states (borrowed map, owned map incl. templates memoised from the loader with the source seen at first request, loader, registries) to depth 6/8 with deduplication; at every merge the environment reached by the new history is compared with the one reached by the stored representative. Every transition calls the real API. At every step of every history the observations (get_template + render of each name, twice, on a clone) must equal those of a fresh environment built from the model's contents, an add that fails to compile must leave all observations unchanged, and the same render must give the same result twice.",
+        note="This check covers the histories half of the property (incl. nested renders on the same thread). The schedules half (concurrent renders from a shared environment) is not covered by a registered check yet; see DESIGN.md. Observation runs on a clone so that it does not populate the loader cache.",
+        design_ref="2/C15",
+    ),
     "C20": dict(
         level="model_checking",
         engine="E4-sched",
